@@ -41,7 +41,10 @@ class _AbstractGenericManager:
             return NO_VALUES
 
     def get_type_hint(self):
-        return '[%s]' % ', '.join(t.get_type_hint(add_class_info=False) for t in self.to_tuple())
+        # The type hint of a generic might not be known (None).
+        return '[%s]' % ', '.join(
+            t.get_type_hint(add_class_info=False) or 'Any' for t in self.to_tuple()
+        )
 
 
 class LazyGenericManager(_AbstractGenericManager):
